@@ -71,6 +71,6 @@ elif sys.argv[1] == 'run':
                          'lines': [x[2][:300] for x in m]}
         meta['checks_run'] = props
         meta['result'] = caught
-        meta['ran'] = 'tools/run_seed.sh patch.diff ' + ' '.join(props) + ' (git -C /repo apply; bin/check <prop> with VERIF_SEED=1 then 2; git -C /repo checkout -- .)'
+        meta['ran'] = 'tools/run_seed.sh patch.diff ' + ' '.join(props) + ' (git -C /repo apply; bin/check <prop> --seed 1, then --seed 2 if not detected; git -C /repo checkout -- .)'
         json.dump(meta, open(os.path.join(d, 'meta.json'), 'w'), indent=1)
         print(os.path.basename(d), {p: (c['detected'], c['with_failing_input']) for p, c in caught.items()})
